@@ -123,8 +123,7 @@ Proof.
 Qed.
 
 (* ---- sources ---- *)
-Definition fd_bytes (scr : list fdres) : list byte :=
-  flat_map (fun r => match r with FdData b => b | _ => [] end) scr.
+(* fd_bytes (every data byte a descriptor script holds) is defined in Model/Cbuf.v *)
 Definition src_bytes (s : source) : list byte := match s with SrcMem bs => bs | SrcFd scr => fd_bytes scr end.
 (* a memory source holds at least the bytes the caller asks for *)
 Definition src_ok (s : source) (want : Z) : Prop := match s with SrcMem bs => want <= zlen bs | SrcFd _ => True end.
